@@ -30,7 +30,9 @@ def _world(ctx, mods, shape):
             return [b]
         return split_at(b, cuts(ctx, len(b), min(ncuts, len(b) - 1), 'WRTE boundary', part=shape.get('part')))
 
-    st = Std(ctx, maxdata=4096, monitor=mon, packetize=packetize)
+    reorder = (lambda s_, c: ctx.choose(len(c), 'ack/data order')) if shape.get('spec_order') else None
+    st = Std(ctx, maxdata=4096, monitor=mon, packetize=packetize, reorder=reorder)
+    st.dev.strict_causality = not shape.get('spec_order')
     w = World(ctx, mods, st.dev, impl=shape['impl'])
     o = w.try_call('connect')
     return mon, st, w
@@ -105,6 +107,10 @@ def shapes(tier, seed):
             out.append({'h': 'list', 'impl': impl, 'names': [], 'many': 150 if q else 300, 'wrte_size': ws})
         for nc in ((0, 1, 2) if q else (0, 1, 2, 3)):
             out.append({'h': 'stat', 'impl': impl, 'cuts': nc})
+        # protocol.txt ordering only: reply packets may even precede the OKAY for the request
+        out.append({'h': 'stat', 'impl': impl, 'cuts': 2, 'spec_order': True, 'max_paths': 200000})
+        out.append({'h': 'list', 'impl': impl, 'names': [2, 1], 'cuts': 1, 'spec_order': True, 'max_paths': 200000})
+        out.append({'h': 'list', 'impl': impl, 'names': [1], 'cuts': 2, 'spec_order': True, 'max_paths': 200000, 'part': [0, 4]})
     # a listing that arrives in several packets while another stream is being read concurrently (a timeout due to K1 is C06's)
     out.append({'h': 'async', 'ops': [['list', {'names': [1, 1, 1]}], ['streaming_shell', {'lens': [1]}]], 'wrte_size': 24, 'ignore_k1': True, 'max_paths': 200000})
     out.append({'h': 'threads', 'ops': [['list', {'names': [1, 1]}], ['streaming_shell', {'lens': [1]}]], 'wrte_size': 24, 'preempt': 1, 'yields': False, 'ignore_k1': True, 'max_paths': 200000})
